@@ -7,7 +7,7 @@ def run(tier, seed):
     v = vlib.Verdict("C03", tier, seed)
     wd = vlib.workdir("C03")
     vlib.build_harness()
-    r, rep = netcommon.mc_and_replay(v, wd, "c03", 1, tier == "thorough", workers=12 if tier == "quick" else 15)
+    r, rep = netcommon.mc_and_replay(v, wd, "c03", 1, tier == "thorough", workers=15)
     vlib.require(rep["evaluations"] > 100000 and rep["nontrivial"] > 500, "C03 replay too small")
     v.assumptions += [
         "third-party is computed in the spec with single-label public suffixes (com); C12 checks the real resolver",
